@@ -63,6 +63,36 @@ WHAT = {
  "C19-3": "error guard requires `de == nil`: unreadable directory pushed twice",
  "C20-1": "reload bumps the preview version only when a selection existed",
  "C20-2": "KillCommand kills only the shell (superseded compound preview survives, holds the pipe)",
+ "C04-4": "mergedGet copies the rest of the last live list in bulk but advances its cursor by one (a probe that jumps ahead, then a read further on)",
+ "C04-5": "buildResult counts the {0,0} placeholder offset of a satisfied negated term: begin/end/pathname tiebreaks with `foo !bar`",
+ "C04-6": "--tail trim copies from the end of the chunk capacity instead of its fill level (partial chunk trimmed)",
+ "C06-4": "origText kept only when the --with-nth transformation differs from the record: trailing blanks lost under identity --with-nth",
+ "C06-5": "Snapshot reuses its previous copy of the last chunk when the fill level is the same (exactly 100*k records between two snapshots)",
+ "C06-6": "pass-through Merger.Get: `>` for `>=` at the short first chunk after --tail (one record replaced by a stale slot)",
+ "C08-4": "per-item nth-token cache reused across change-nth (only the major revision is compared)",
+ "C08-5": "--exact: a 'boundary' term counts as cacheable but is left out of the cache key",
+ "C08-6": "ChunkList memoises its last snapshot by item count; Clear() keeps the memo (reload with the same number of lines)",
+ "C09-4": "word motion / word kill use the regexp byte offset as rune count (multi-byte letters before the boundary)",
+ "C09-5": "select-all adds the first min(matches, limit) unselected results directly, bypassing the limit check",
+ "C09-6": "accept-non-empty / accept-or-print-query test for a current line instead of selection-or-matches",
+ "C13-4": "the per-query merger cache is dropped only on sort change or major revision (exclude / --tail window served from an older result)",
+ "C13-5": "ChunkList.Push builds the item and increments count after releasing the list mutex (races with Snapshot's copy)",
+ "C13-6": "exact chunk-cache lookup no longer checks p.cacheable: `foo !bar` answered from the cached `foo`",
+ "C14-4": "re-show-cursor sequence queued after the final flush: cursor stays hidden after --no-input / hide-input sessions",
+ "C14-5": "scroll-off adjustment merged into one loop that oscillates forever (even list height, scroll-off >= height/2)",
+ "C14-6": "scrollbar drag falls through to the item click when no scrollbar exists: drag out of the window indexes prevLines[-2]",
+ "C15-4": "reqPrompt no longer repaints the counts under --info=inline-right",
+ "C15-5": "`displayWidth >= maxWidth` truncates a line that exactly fits",
+ "C15-6": "multi-line --header drawn bottom-to-top under --layout=reverse-list",
+ "C16-4": "API key compared only when the header block ends: a GET whose headers never end is answered with the state",
+ "C16-5": "POST body trimmed with TrimSpace: trailing blanks of colon-form arguments lost, ` up ` accepted",
+ "C16-6": "tryLock as goroutine + select: a GET that times out leaks a goroutine that later takes the terminal mutex for good",
+ "C17-4": "--listen-unsafe sets Unsafe and falls through; a later --listen no longer resets it",
+ "C17-5": "action list of `k1,k2:...` parsed once for the first key (`+` append prefix, bare put validity)",
+ "C17-6": "options file / $FZF_DEFAULT_OPTS that cannot be split into words is dropped silently",
+ "C20-4": "matcher skips EvtSearchFin when the merger object is unchanged: {q} preview not re-run after `a` -> `a `",
+ "C20-5": "change-preview-window compares with the initial hidden flag: re-shown window keeps the old output",
+ "C20-6": "SIGTERM no longer handled: the preview's process group survives",
  "C20-3": "printPreview `unchanged` shortcut ignores the line count: incremental output painted once",
 }
 
@@ -81,8 +111,9 @@ for d in sorted(glob.glob(os.path.join(V, "seeded", "*"))):
     rows.append(f"| {sid} | {WHAT.get(sid, '')} | {c} |")
 
 table = "| id | seeded change | caught by (quick) |\n|---|---|---|\n" + "\n".join(rows) + "\n"
-note = ("\nC14-2 (temp file of `execute(... {f})` created before the early return) was confirmed against the pinned tree but is\n"
-        "neutralised by the general exit-time cleanup of F28 and is therefore not kept. Seeds whose own-property check is listed under\n"
+note = ("\nC14-2 (temp file of `execute(... {f})` created before the early return) and C10-2 (change-nth no longer clears the chunk cache)\n"
+        "were confirmed against the pinned tree but are neutralised by later repairs (the exit-time cleanup of F28, the cache reset on\n"
+        "every revision change of F26) and are therefore not kept. Seeds whose own-property check is listed under\n"
         "\"not by\" break a clause that is observed by another check (interactive cache effects by C08, selection order by C09,\n"
         "reader aliasing by C06, process groups by C20): the table names the check that decides it.\n")
 p = os.path.join(V, "DESIGN.md")
